@@ -5,8 +5,10 @@ from ..runner import Prop
 from ..codec import INT_RANGES, f64_bits, bits_f64, Codec
 from ..layouts import lay1
 from .c01 import mk_q_case, parse_q, C01, num, STRATS, q_grid, in_k1_class
+from .c14 import mk_qsk_case, C14, NAN64
 
 _c01 = C01()
+_c14 = C14()
 
 
 def dense_grid(n, rng):
@@ -18,7 +20,7 @@ def dense_grid(n, rng):
 
 class C19(Prop):
     id = "C19"
-    imports = ["Run.RunQuant"]
+    imports = ["Run.RunQuant", "Run.RunNan"]
     coq_batch = 120
     rule = ("for each lane (lengths 1..9, heavy duplicates, i32/i64/u8/N64, outside the K1 class) one bulk call per strategy on a "
             "dense sorted q grid (k/40 plus every k/(N-1), (k+.5)/(N-1) and their ulp neighbours): monotone in q, between the "
@@ -121,10 +123,36 @@ class C19(Prop):
                     c.grp, c.role = "g%d" % g, "base"
                     yield c
 
+        # the same laws through quantile_axis_skipnan_mut on lanes with missing values: f64 (NotNan = N64) and
+        # Option<N64> (NotNan = NotNone<N64>, whose arithmetic and float conversions are forwarding impls of the crate),
+        # fractional data so that interpolation is really exercised
+        for rep in range(3 if tier == "quick" else 60):
+            for et in ("on64", "f64"):
+                n = rng.range(5, 9)
+                pool = [0.9, 1.1, 2.75, -0.6, 3.125, 0.25, 1.75, -2.2, 4.5]
+                vals = [pool[rng.below(len(pool))] for _ in range(n)]
+                for _ in range(rng.range(1, 2)):
+                    vals[rng.below(n)] = None
+                live = sum(1 for v in vals if v is not None)
+                if live < 2:
+                    continue
+                qs = sorted(set([k / 8.0 for k in range(9)] + [k / float(live - 1) for k in range(live)] + [0.3, 0.375, 0.6180339887]))
+                g += 1
+                for strat in range(5):
+                    for q in qs:
+                        c = mk_qsk_case(et, strat, [n], vals, q, lay1(n, rng.choice([1, 2, -1])), 0, ("P", rng.below(3)))
+                        c.grp, c.role, c.sk = "k%d" % g, "sk", True
+                        yield c
+
     def parse(self, case):
+        if getattr(case, "sk", False):
+            _c14.parse(case)
+            return
         parse_q(case)
 
     def oracle(self, case):
+        if getattr(case, "sk", False):
+            return []       # the laws are relations between calls: extra_checks
         o = case.obs
         if o["tag"] != "OK":
             return ["error: %s on valid arguments" % o["tag"]]
@@ -153,12 +181,58 @@ class C19(Prop):
             out.append("endpoint: q = 1 returns %s, the maximum is %s" % (float(v[-1]), float(data[-1])))
         return out
 
+    def _sk_checks(self, cases):
+        """order laws on the results of quantile_axis_skipnan_mut, one call per (strategy, q)"""
+        out = []
+        groups = {}
+        for c in cases:
+            if getattr(c, "sk", False) and c.obs is not None:
+                groups.setdefault(c.grp, []).append(c)
+        for gname, cs in groups.items():
+            tab = {}
+            for c in cs:
+                flat, st = c.obs
+                if st.get("tag") != "OK" or len(st.get("vals", [])) != 1 or st["vals"][0] == NAN64:
+                    out.append((c, "error: quantile_axis_skipnan_mut outcome %s on a lane with remaining elements" % st.get("tag")))
+                    continue
+                tab[(c.strat, c.q)] = (bits_f64(st["vals"][0]), c)
+            live = sorted(v for v in cs[0].vals if v is not None)
+            qs = sorted(set(q for (_, q) in tab))
+            for s_ in range(5):
+                seq = [(q, tab[(s_, q)]) for q in qs if (s_, q) in tab]
+                slack = 1e-12 if s_ == 4 else 0.0
+                for (q1, (v1, c1)), (q2, (v2, c2)) in zip(seq, seq[1:]):
+                    if v1 > v2 + slack * max(1.0, abs(v1)):
+                        out.append((c2, "monotone: %s skip-NaN quantile decreases from q=%r (%r) to q=%r (%r)" % (STRATS[s_], q1, v1, q2, v2)))
+                        break
+                for q, (v, c) in seq:
+                    if v < live[0] - slack or v > live[-1] + slack:
+                        out.append((c, "bounds: %s skip-NaN quantile %r at q=%r outside [min %r, max %r]" % (STRATS[s_], v, q, live[0], live[-1])))
+                        break
+            for q in qs:
+                if (1, q) in tab and (0, q) in tab:
+                    lo, hi = tab[(1, q)][0], tab[(0, q)][0]
+                    for s_ in (2, 3, 4):
+                        if (s_, q) in tab:
+                            v, c = tab[(s_, q)]
+                            sl = 1e-12 * max(1.0, abs(v)) if s_ == 4 else 0.0
+                            if v < lo - sl or v > hi + sl:
+                                out.append((c, "bracket: %s skip-NaN quantile at q=%r is %r, outside [Lower %r, Higher %r]" % (STRATS[s_], q, v, lo, hi)))
+                                break
+                    xf = q * float(len(live) - 1)
+                    if xf == math.floor(xf) and all((s_, q) in tab for s_ in range(5)):
+                        if len(set(tab[(s_, q)][0] for s_ in range(5))) != 1:
+                            out.append((tab[(0, q)][1], "coincide: (N-1)q is integral at q=%r but the skip-NaN strategies return %s" % (q, [tab[(s_, q)][0] for s_ in range(5)])))
+        return out
+
     def extra_checks(self, cases, tier, rng):
         groups = {}
         for c in cases:
+            if getattr(c, "sk", False):
+                continue
             if c.obs and c.obs.get("tag") == "OK":
                 groups.setdefault(c.grp, []).append(c)
-        out = []
+        out = self._sk_checks(cases)
         for gname, cs in groups.items():
             if gname[-1].isdigit():
                 by = {c.strat: c for c in cs}
@@ -199,17 +273,25 @@ class C19(Prop):
         return out
 
     def known_class(self, case, reasons):
+        if getattr(case, "sk", False):
+            return None
         return "K1" if in_k1_class(case) else None
 
     def chk_term(self, case):
+        if getattr(case, "sk", False):
+            return _c14.chk_term(case)
         if case.obs["tag"] != "OK":
             return None
         return _c01.chk_term(case)
 
     def model_term(self, case):
+        if getattr(case, "sk", False):
+            return _c14.model_term(case)
         return _c01.model_term(case)
 
     def nontrivial(self, case):
+        if getattr(case, "sk", False):
+            return sum(1 for v in case.vals if v is not None) >= 2
         return len(case.vals) >= 2
 
     def key(self, case):
